@@ -19,9 +19,20 @@ fn run_case(case: &str) -> String {
     // any line that is not a well-formed case (a replay file may contain anything) gets one answer line
     let hexok = |s: &str| !s.is_empty() && s.len() <= 16 && s.chars().all(|c| c.is_ascii_hexdigit());
     let wellformed = match f.first().copied() {
-        Some("S") => f.len() == 4 && hexok(f[1]) && f[1] != "0" && hexok(f[2]) && hexok(f[3].strip_prefix('-').unwrap_or(f[3])),
-        Some("P") => f.len() == 3 && hexok(f[1]) && hexok(f[2]),
-        Some("I") | Some("D") => f.len() == 5 && f[1..].iter().all(|x| hexok(x)),
+        // inside the quantifier only: 1 <= n <= 65535, msb <= 63, token != i64::MIN (never on the wire), s < n, ports within u16
+        Some("S") => {
+            f.len() == 4 && hexok(f[1]) && hexok(f[2]) && hexok(f[3].strip_prefix('-').unwrap_or(f[3])) && {
+                let (n, msb) = (u64::from_str_radix(f[1], 16).unwrap(), u64::from_str_radix(f[2], 16).unwrap());
+                (1..=65535).contains(&n) && msb <= 63 && f[3] != "-8000000000000000"
+            }
+        }
+        Some("P") => f.len() == 3 && hexok(f[1]) && hexok(f[2]) && (1..=65535).contains(&u64::from_str_radix(f[1], 16).unwrap()) && u64::from_str_radix(f[2], 16).unwrap() <= 65535,
+        Some("I") | Some("D") => {
+            f.len() == 5 && f[1..].iter().all(|x| hexok(x)) && {
+                let v: Vec<u64> = f[1..].iter().map(|x| u64::from_str_radix(x, 16).unwrap()).collect();
+                (1..=65535).contains(&v[0]) && v[1] < v[0] && v[2] >= 1024 && v[2] <= v[3] && v[3] <= 65535
+            }
+        }
         Some("R") => f.len() == 4,
         _ => false,
     };
